@@ -165,6 +165,17 @@ theorem code_weighted_convex (n : Nat) (ndim : Int) (ms : List Bool) (ws xs : Li
     have := C04.weighted_convex _ m M v hw hx hwt
     simpa using this
 
+/-- **the reported standard deviation is a real number**: with non-negative weights the regenerated `_calculate_uncertainty` never
+hands `np.sqrt` a negative radicand — where its result is defined it is `sqrt` of a number ≥ 0 -/
+theorem code_uncertainty_radicand_nonneg (n : Nat) (ndim : Int) (ms : List Bool) (ws xs : List Rat) (mu : Rat) (sq : Rat → Option Rat)
+    (hmu : C04.weighted (slotsOf n ms ws xs) = some mu) (hw : ∀ s ∈ C04.liveSlots (slotsOf n ms ws xs), 0 ≤ s.w) :
+    (Gen.weighted_uncertainty n ndim ms ws xs mu (C04.accum (slotsOf n ms ws xs)).2 sq).1 = none ∨
+    ∃ v, 0 ≤ v ∧ (Gen.weighted_uncertainty n ndim ms ws xs mu (C04.accum (slotsOf n ms ws xs)).2 sq).1 = sq v := by
+  rw [tie_weighted_uncertainty n ndim ms ws xs mu sq hmu]
+  cases hv : C04.variance (slotsOf n ms ws xs) with
+  | none => left; rfl
+  | some v => right; exact ⟨v, C04.variance_nonneg _ hw v hv, rfl⟩
+
 /-- the number of neighbour slots asked for does not matter beyond the slots themselves, and `ndim` not at all -/
 theorem code_weighted_ndim_irrelevant (n : Nat) (d1 d2 : Int) (ms : List Bool) (ws xs : List Rat) (fill : Rat) :
     Gen.weighted_result n d1 ms ws xs fill = Gen.weighted_result n d2 ms ws xs fill := by
